@@ -642,6 +642,40 @@ def h19b(c):
         c.cover("batch")
 
 
+def h19n(c):
+    """strategy name -> reference prefix: for every kind of name (empty, unicode, very long, names whose sha1 starts with zeros) the hash has
+    exactly the 13 lower-case hex characters of the digest, so the fixed-position split of a reference recovers it; a reference built from it
+    is adopted by a second instance, and the cleared order that carries it reaches its order whatever permitted separator the order uses"""
+    import hashlib
+    from flumine.order.order import OrderStatus
+    name = c.choose("strategy_name", ["", "s", "back_favourite_2", "lay_the_draw_686", "strat\u00e9gie-\u6771\u4eac", "x" * 5000, "a", "0"])
+    sep = c.choose("separator", ["-", "~", ":", "a", "0", "Z", "."])
+    st1 = cm.RecordingStrategy(market_filter={}, name=name)  # (an empty name falls back to the class name: same class in both instances)
+    want = hashlib.sha1(st1.name.encode()).hexdigest()[:13]
+    c.ob("name-hash=first-13-hex-of-sha1", st1.name_hash == want, got=st1.name_hash, want=want)
+    c.ob("name-hash-length=13", len(st1.name_hash) == 13, got=len(st1.name_hash))
+    if hashlib.sha1(st1.name.encode()).hexdigest()[0] == "0":
+        c.cover("digest-with-leading-zero")
+    with cm.config_set(simulated=False):
+        fl, client, _ = cm.new_live(n_strategies=0)
+        st2 = cm.add_live_strategy(fl, name)
+        o = Trade(cm.MID, 1, 0, st1).create_order("BACK", cm.LimitOrder(2.0, 2.0), sep=sep)
+        ref = o.customer_order_ref
+        c.ob("reference-length<=32", len(ref) <= 32)
+        with c.guard("adoption"):
+            fl._process_current_orders(cm.current_orders_event(client, [cm.current_order(ref, "555")]))
+        m = fl.markets.markets.get(cm.MID)
+        got = [x for x in (m.blotter if m else [])]
+        c.ob("adopted-into-producing-strategy", len(got) == 1 and got[0].trade.strategy is st2 and got[0].id == o.id and got[0].bet_id == "555", found=len(got))
+        if got:
+            # the cleared order handed back by the exchange after settlement carries the same reference
+            cleared = cm.NS(orders=[cm.NS(customer_order_ref=ref, bet_id="555", profit=1.0)])
+            with c.guard("cleared"):
+                m.blotter.process_cleared_orders(cleared)
+            c.ob("cleared-order-reaches-its-order", got[0].cleared_order is cleared.orders[0], separator=sep)
+    c.cover("names")
+
+
 def h19e(c, K=3):
     """live mode schedules (C11 world): a replacement bet keeps the customer reference of the bet it replaces - two bets, one reference - and
     its stream update may arrive before the replace response: what the stream says about a bet is only ever stored on the order with that bet id"""
@@ -715,6 +749,7 @@ def h19s(c):
 HARNESSES = [
     Harness("H19e", h19e, quick=dict(K=3), thorough=dict(K=4), pattern="P3/P5 schedule as a variable", requires=["run", "snapshot", "replaced-bet"], selfcheck=False,
             max_paths=(400000, 5000000), wall_s=(300, 3000)),
+    Harness("H19n", h19n, pattern="exhaustive choice product through the real hash, adoption and cleared-order paths", requires=["names", "digest-with-leading-zero"], selfcheck=False),
     Harness("H19s", h19s, pattern="exhaustive choice product (three creation paths against each other)", requires=["valid", "invalid", "separator-used-by-betdaq-first"], selfcheck=False),
     Harness("H19u", h19u, quick=dict(n=40), thorough=dict(n=400), pattern="environment stub (clock) + exhaustive regime product", requires=["unique"], selfcheck=False),
     Harness("H19b", h19b, pattern="exhaustive choice product through the real Betdaq polling path", requires=["batch"], selfcheck=False),
